@@ -19,8 +19,11 @@ ASSUMPTIONS = ['image level: the image matches its extension (same shape; slice 
                'values: Python == coincides with structural equality (generators never mix 1 / 1.0 / True, no NaN)',
                'inputs are valid and nondegenerate (no key in a varying class of multiplicity 1); idx < shape[dim]',
                'key order of the result is not modelled (compared as unordered maps)',
-               'the random stream excludes trailing-singleton shapes (X,Y,Z,1)/(X,Y,Z,T,1), where the real code raises KeyError '
-               '(open known finding N2, signature subset/trailing-singleton/KeyError; covered by corpus/C04)']
+               'about 10% of the generated shapes end in a singleton dim ((X,Y,Z,1), (X,Y,Z,T,1)); there the real code raises KeyError when '
+               'the extension holds a key in the class that vanishes from the trimmed result (open finding N2; the signature '
+               're-derives that mechanism: vanishing base from the case, KeyError naming exactly that dictionary)',
+               'exception CLASSES are not compared for get_subset / split (the property names none): a dimension the extension does '
+               'not have must be refused, with any exception; an index beyond the axis is outside the property (correspondence only)']
 from props import imglib
 PARTS = [extlib.SubsetPart, extlib.SplitPart, imglib.for_property(imglib.ImgSplitPart, 'C04')]
 THEOREMS = list(THEOREMS) + imglib.THEOREMS['Props/C04img.v'] + ['C04_subset_total', 'C04_subset_den_total', 'C04_subset_total_trailing1_refuted', 'C04_subset_total_idx_refuted', 'C04_subset_total_invalid_refuted', 'C04_split_total', 'C04img_split_total', 'C04img_split_w_total']
@@ -47,3 +50,9 @@ THEOREMS = list(THEOREMS) + ['SRC_global_slice_subset', 'SRC_changed_class']
 COQ_PROPS = list(COQ_PROPS) + ['Props/SRCstate.v']
 THEOREMS = list(THEOREMS) + ['SRC_change_class', 'SRC_simplify', 'SRC_to_content_holds']
 TABLES = sorted(set(list(TABLES) + ['t_src_state', 't_content', 't_cli']))
+
+
+# source tie, stage C (integrator): _copy_slice is TRANSLATED in state-passing form and copy_slice_k folded over the source class
+# dictionary is proved equal to the translation (Props/SRCsubset.v)
+COQ_PROPS = list(COQ_PROPS) + ['Props/SRCsubset.v']
+THEOREMS = list(THEOREMS) + ['SRC_copy_slice_step', 'SRC_copy_slice']
